@@ -509,6 +509,17 @@ class C11(PlayCheck):
     def streams(self):
         req = os.path.join(self.wd, "draws.req")
         vlib.gen_requests(["draws", self.seed + 11, self.n(1500, 40000), self.corpus_file("positions.fen")], req)
+        # fixed games first: a position that recurs only after more than a hundred reversible plies
+        tours = []
+        with open(self.corpus_file("long_tours.txt")) as f:
+            for line in f:
+                if line.strip() and not line.startswith("#"):
+                    fen, ops = line.rstrip("\n").split("\t")
+                    tours.append(f"play\t{fen}\t{ops}\n")
+        with open(req) as f:
+            rest = f.read()
+        with open(req, "w") as f:
+            f.write("".join(tours) + rest)
         yield "draws", req
 
     def oracle_states(self, req, ops, istates, sstates):
@@ -1421,6 +1432,11 @@ class C04(SearchCheck):
         # positions let all 255 iterations complete
         for f in ["8/8/8/4k3/8/4K3/8/8 w - - 0 1", "8/8/8/4k3/8/4KN2/8/8 b - - 0 1"]:
             lines.append(f"search\t1\t{f}||255|0|0")
+        # … and a locked pawn chain, where the kings can only shuffle: a real tree at every remaining depth up to 254
+        # (arithmetic in the remaining depth — margins, reductions — meets its largest arguments here)
+        locked = "4k3/8/8/p1p1p1p1/PpPpPpPp/1P1P1P1P/8/4K3 w - - 0 1"
+        lines.insert(0, f"search\t1\t{locked}||255|0|0")
+        lines.insert(1, f"search\t1\t{mirror(locked)}||255|0|0")
         with open(req_path) as f:
             body = f.read()
         with open(req_path, "w") as f:
